@@ -27,7 +27,8 @@ Record cfg_gen := {
   g_init_ts : fn_skel; g_cleanup_ts : fn_skel; g_init_nts : fn_skel; g_cleanup_nts : fn_skel;
   g_parsers : list (string * fn_skel);
   g_neutral : list string;            (* callees of the above that (transitively) call no allocation / release function *)
-  g_static_uninit : bool              (* NTS: the global record's static initialiser leaves [initialized] at SNOOPY_FALSE *)
+  g_static_uninit : bool;             (* NTS: the global record's static initialiser leaves [initialized] at SNOOPY_FALSE *)
+  g_writers : list (string * list string)   (* every library function that assigns a field of the record, with the fields (raw AST, whole library) *)
 }.
 
 Definition CFG : sexpr := XVar "CFG".
@@ -194,7 +195,8 @@ Section Facts.
   (** get(): an uninitialised record is defaulted before it is handed out *)
   Definition get_inits_body (b : list sstmt) : bool :=
     existsb (fun s => match s with
-                      | SIf (XOp op [XInt 1%Z; XMember (XVar "CFG") "initialized"]) [SExpr (XCall f [XVar "CFG"])] [] => String.eqb op "!=" && String.eqb f DEFAULTS
+                      | SIf (XOp op [XInt 1%Z; XMember (XVar "CFG") "initialized"]) [SExpr (XCall f [XVar "CFG"])] []
+                      | SIf (XOp op [XMember (XVar "CFG") "initialized"; XInt 1%Z]) [SExpr (XCall f [XVar "CFG"])] [] => String.eqb op "!=" && String.eqb f DEFAULTS
                       | _ => false end) b
     && negb (existsb s_has_other b)
     && match rev b with SReturn (Some (XVar "CFG")) :: before => negb (existsb has_return before) | _ => false end.
@@ -275,9 +277,17 @@ Section Facts.
     str_in "snoopy_configuration_ctor" (body_calls (sk_body (g_init_nts G))) && str_in "snoopy_configuration_dtor" (body_calls (sk_body (g_cleanup_nts G)))
     && negb (str_in "snoopy_tsrm_ctor" (body_calls (sk_body (g_init_nts G)))) && g_static_uninit G.
 
+  (** between ctor and dtor ("use": filters, message, data sources, outputs, error handler) nobody writes a pointer field or a flag of the
+      record: every writer is one of the life-cycle functions / value parsers, or writes plain settings only (error.c toggles error_logging) *)
+  Definition life_cycle_writers : list string :=
+    [sk_name (g_defaults G); sk_name (g_uninit G); sk_name (g_dtor G); sk_name (g_load G)] ++ map (fun p => sk_name (snd p)) (g_parsers G).
+  Definition vf_writers_ok : bool :=
+    forallb (fun w => str_in (fst w) life_cycle_writers
+                      || forallb (fun f => negb (str_in f (g_ptr_fields G)) && negb (str_in f (flag_fields G))) (snd w)) (g_writers G).
+
   Definition vfacts_ok : bool :=
     forallb (fun f => str_in f vf_assigned) (g_fields G) && vf_defaults_pure && vf_defaults_sets_init && vf_dtor_defaults
-    && vf_get_inits TS && vf_get_inits NTS && vf_get_source TS && vf_get_source NTS && vf_ctor_reparses && vf_ts_fresh && vf_nts_life.
+    && vf_get_inits TS && vf_get_inits NTS && vf_get_source TS && vf_get_source NTS && vf_ctor_reparses && vf_ts_fresh && vf_nts_life && vf_writers_ok.
 End Facts.
 
 Section Values.
@@ -298,7 +308,8 @@ Section Values.
     let s1 := vget v s in if vf_dtor_defaults G then vdefault s1 else s1.
 
   (** one element of a history: the file as the call finds it, and (TS) the arbitrary content of the freshly allocated record *)
-  Record hcall := { h_file : option file; h_garbage : cfg; h_ginit : bool }.
+  Record hcall := { h_file : option file; h_garbage : cfg; h_ginit : bool;
+                    h_use : cfg -> cfg; h_use_init : bool -> bool }.     (* whatever the use phase writes into the record's settings *)
   Definition ventry (v : variant) (s : vstate) (c : hcall) : vstate :=
     match v with
     | NTS => s
@@ -308,7 +319,9 @@ Section Values.
   Fixpoint effs (v : variant) (s : vstate) (h : list hcall) : list cfg :=
     match h with
     | [] => []
-    | c :: h' => let s1 := vctor v (ventry v s c) (h_file c) in v_cfg s1 :: effs v (vdtor v s1) h'
+    | c :: h' => let s1 := vctor v (ventry v s c) (h_file c) in
+                 let s2 := {| v_init := h_use_init c (v_init s1); v_cfg := h_use c (v_cfg s1) |} in
+                 v_cfg s1 :: effs v (vdtor v s2) h'
     end.
   Definition dflt : cfg := dv.
 End Values.
@@ -317,3 +330,5 @@ Arguments v_cfg {val} _.
 Arguments h_file {val file} _.
 Arguments h_garbage {val file} _.
 Arguments h_ginit {val file} _.
+Arguments h_use {val file} _ _.
+Arguments h_use_init {val file} _ _.
